@@ -1,0 +1,14 @@
+//go:build verif
+
+package types
+
+// VerifStep, when set, is called on every step of the function result resolver (only with
+// build tag verif). External runtime monitors use it to bound the work of one ResultsOf call
+// in logical steps instead of wall-clock time.
+var VerifStep func(point string)
+
+func verifStep(point string) {
+	if VerifStep != nil {
+		VerifStep(point)
+	}
+}
